@@ -1,6 +1,7 @@
 import Deb822Verif.Model.DebEdit
 import Deb822Verif.Lemmas.DebEditFrame
 import Deb822Verif.Lemmas.DebEditDoc
+import Deb822Verif.Lemmas.DebEditHandles
 import Deb822Verif.Props.C03
 /-!
 # C04 — field edits act like list edits, touch nothing else, and survive a re-read
@@ -807,5 +808,284 @@ example : UWF [.para [], .gap .blank,
 example : UWF (unitsOf C03.exDoc) := by decide
 example : ∀ p ∈ [[("A".toList, "b".toList), ("B".toList, "l1\nl2".toList)], [("C".toList, "d".toList)]], ValidPairs p := by
   decide
+
+/-! ## whole histories against the handle-indexed list model of the oracle
+
+  `LModel` (`Lemmas/DebEditHandles.lean`) mirrors `struct ListModel { order, paras }` of
+  `harness/src/edit.rs`; `mstep` mirrors the model updates in its `match f.as_slice()` arms.
+  `HRel d.kids d.handles M` is the invariant; `HRel.oracle1` / `HRel.oracle2` are the oracle's
+  steps (1) and (2). NO validity hypothesis is needed here: names and values are arbitrary, the
+  start document may contain errors — only the root's children have to be nodes, which holds for
+  every parsed and every built document. -/
+
+/-- the list-model step of the oracle -/
+def mstep (M : LModel) : EditOp → LModel
+  | .set h k v => M.edit h (fun m => ListSpec.set m k v)
+  | .ins h k v => M.edit h (fun m => ListSpec.insert m k v)
+  | .rm h k => M.edit h (fun m => ListSpec.remove m k)
+  | .ren h k k' => M.edit h (fun m => ListSpec.rename m k k')
+  | .addp => M.addp
+  | .insp i => M.insp i
+  | .rmp i => M.rmp i
+
+def mrun (M : LModel) (ops : List EditOp) : LModel := ops.foldl mstep M
+
+def AllNodes (kids : List DNode) : Prop := ∀ c ∈ kids, c.isNode = true
+
+instance (kids : List DNode) : Decidable (AllNodes kids) := by unfold AllNodes; exact inferInstance
+
+theorem items_node_any (k : Kind) (X : List DNode) : items (.node k X) = pitems X := by
+  simp [pitems, items, entries, Node.children]
+
+/-- `terminate_last_line` on the root's children keeps every child a node, the paragraph positions
+    and every paragraph's items -/
+theorem terminateLastLine_sig (kids : List DNode) (h : AllNodes kids) :
+    (terminateLastLine kids).map sig = kids.map sig ∧ AllNodes (terminateLastLine kids) := by
+  unfold terminateLastLine
+  split
+  · exact ⟨rfl, h⟩
+  · split
+    · exact ⟨rfl, h⟩
+    · split
+      · rename_i k t hl
+        have := h _ (List.mem_of_getLast? hl)
+        simp [Node.isNode] at this
+      · rcases getLast_snoc_cases kids with rfl | ⟨init, last, rfl⟩
+        · simp [terminateLast, AllNodes]
+        · rw [terminateLast_snoc]
+          have hl := h last (by simp)
+          cases last with
+          | tok k t => simp [Node.isNode] at hl
+          | node k cs =>
+            simp only [terminatedLast, List.map_append, List.map_cons, List.map_nil]
+            constructor
+            · congr 2
+              simp only [sig, isParaNode, Node.isNode, Node.kind, items_node_any, Prod.mk.injEq, true_and]
+              split
+              · exact pitems_terminateLast cs
+              · simp [pitems_eq, childItem, Node.isNode]
+            · intro c hc
+              simp only [List.mem_append, List.mem_singleton] at hc
+              rcases hc with hc | rfl
+              · exact h c (by simp [hc])
+              · rfl
+
+theorem allNodes_step (d : Doc) (h : AllNodes d.kids) (o : EditOp) : AllNodes (step d o).kids := by
+  have hon : ∀ hh f, AllNodes (d.onPara hh f).kids := by
+    intro hh f
+    unfold Doc.onPara
+    split
+    · split
+      · intro c hc
+        rcases List.mem_or_eq_of_mem_set hc with hc | rfl
+        · exact h c hc
+        · rfl
+      · exact h
+    · exact h
+  have hadd : AllNodes (addParagraph d).kids := by
+    intro c hc
+    simp only [addParagraph, insertEmptyParagraph, insertAt, List.mem_append] at hc
+    have ht := (terminateLastLine_sig d.kids h).2
+    rcases hc with (hc | hc) | hc
+    · exact ht c (List.mem_of_mem_take hc)
+    · rcases hc with hc | hc
+      · split at hc
+        · simp at hc; subst hc; rfl
+        · simp at hc
+      · simp at hc; subst hc; rfl
+    · exact ht c (List.mem_of_mem_drop hc)
+  cases o with
+  | set hh k v => exact hon _ _
+  | ins hh k v => exact hon _ _
+  | rm hh k => exact hon _ _
+  | ren hh k k' => exact hon _ _
+  | addp => exact hadd
+  | insp i =>
+    simp only [step, insertParagraph]
+    cases hc : convertIndex d.kids i with
+    | none => exact hadd
+    | some p =>
+      intro c hc'
+      simp only [insertEmptyParagraph, insertAt, List.mem_append, List.mem_cons] at hc'
+      rcases hc' with (hc' | hc' | hc') | hc'
+      · exact h c (List.mem_of_mem_take hc')
+      · subst hc'; rfl
+      · split at hc'
+        · simp at hc'; subst hc'; rfl
+        · simp at hc'
+      · exact h c (List.mem_of_mem_drop hc')
+  | rmp i =>
+    simp only [step, removeParagraph]
+    have he : ∀ (l : List DNode) q, AllNodes l → AllNodes (l.eraseIdx q) :=
+      fun l q hl c hc => hl c ((List.eraseIdx_sublist l q).subset hc)
+    split
+    · exact h
+    · split
+      · split
+        · exact he _ _ (he _ _ h)
+        · exact he _ _ h
+      · exact he _ _ h
+
+/-- **one step**: every operation — any handle (live, dead, never handed out), any name, any
+    value, any index — acts on the document exactly as the oracle's list model says -/
+theorem C04_step_refines (d : Doc) (M : LModel) (hn : AllNodes d.kids) (H : HRel d.kids d.handles M)
+    (o : EditOp) : HRel (step d o).kids (step d o).handles (mstep M o) := by
+  cases o with
+  | set h k v => exact H.onPara h _ _ (fun cs => C04_refine_set cs k v)
+  | ins h k v => exact H.onPara h _ _ (fun cs => C04_refine_insert cs k v)
+  | rm h k => exact H.onPara h _ _ (fun cs => C04_refine_remove cs k)
+  | ren h k k' => exact H.onPara h _ _ (fun cs => (C04_refine_rename cs k k').1)
+  | addp => exact H.add hn (terminateLastLine_sig d.kids hn).1
+  | insp i =>
+    cases hc : convertIndex d.kids i with
+    | some p => exact H.insert_at i p hc
+    | none =>
+      have h1 : step d (.insp i) = addParagraph d := by simp [step, insertParagraph, hc, addParagraph]
+      have h2 : mstep M (.insp i) = M.addp := by
+        rw [convertIndex_slots] at hc
+        have hl : M.order.length ≤ i := by
+          rw [H.order_len]
+          rcases Nat.lt_or_ge i (slots d.kids 0).length with h | h
+          · rw [List.getElem?_eq_getElem h] at hc; simp at hc
+          · exact h
+        simp [mstep, LModel.insp, LModel.addp, Nat.min_eq_right hl, List.insertIdx_length_self]
+      rw [h1, h2]
+      exact H.add hn (terminateLastLine_sig d.kids hn).1
+  | rmp i => exact H.remove i
+
+/-- **whole histories refine the list model** (and so does every prefix, being a history) -/
+theorem C04_history_refines (ops : List EditOp) : ∀ (d : Doc) (M : LModel), AllNodes d.kids →
+    HRel d.kids d.handles M →
+    HRel (run d ops).kids (run d ops).handles (mrun M ops) ∧ AllNodes (run d ops).kids := by
+  induction ops with
+  | nil => intro d M hn H; exact ⟨H, hn⟩
+  | cons o ops ih =>
+    intro d M hn H
+    exact ih (step d o) (mstep M o) (allNodes_step d hn o) (C04_step_refines d M hn H o)
+
+/-! the start states -/
+
+theorem skipWsNl_nodes (ts : List Tok) : AllNodes (skipWsNl ts).1 := by
+  fun_induction skipWsNl ts
+  case case1 => simp [AllNodes]
+  case case2 t ts' hb b r ih =>
+    intro c hc
+    simp only [List.mem_cons] at hc
+    rcases hc with rfl | hc
+    · rfl
+    · exact ih c hc
+  case case3 => simp [AllNodes]
+
+theorem rootLoop_nodes (ts : List Tok) : AllNodes (rootLoop ts).nodes := by
+  fun_induction rootLoop ts
+  case case1 => simp [AllNodes]
+  case case2 t0 ts0 s h => exact skipWsNl_nodes _
+  case case3 t0 ts0 s t r h p q ih =>
+    intro c hc
+    simp only [List.mem_append, List.mem_singleton] at hc
+    rcases hc with (hc | rfl) | hc
+    · exact skipWsNl_nodes _ c hc
+    · rfl
+    · exact ih c hc
+
+/-- the children of the root the parser returns are nodes — for EVERY text -/
+theorem parse_allNodes (s : Str) : AllNodes (parse s).tree.children := rootLoop_nodes _
+
+theorem built_allNodes (ps : List DNode) (h : AllNodes ps) : AllNodes (docOfParas ps) := by
+  induction ps with
+  | nil => simp [docOfParas, AllNodes]
+  | cons p ps ih =>
+    cases ps with
+    | nil => simpa [docOfParas] using h
+    | cons q qs =>
+      have := ih (fun c hc => h c (by simp [hc]))
+      intro c hc
+      simp only [docOfParas, List.mem_cons] at hc
+      rcases hc with rfl | rfl | hc
+      · exact h _ (by simp)
+      · rfl
+      · exact this c hc
+
+/-- a start document as the driver and the harness set it up: one handle per paragraph, in order -/
+def startOf (kids : List DNode) : Doc := ⟨kids, (paraPositions kids).map some⟩
+
+/-- **the history oracle, steps (1) and (2), as a theorem**: start from the parse of ANY text (or
+    from any child list made of nodes, e.g. a built document), run ANY list of operations; then
+    with `M = mrun (LModel.init kids) ops` (the oracle's list model run alongside):
+    * per handle number `j` (`oracle1`): `M.paras[j] = none` — never handed out; `some none` — the
+      handle is dead in the document too; `some (some m)` — the handle is live, denotes a PARAGRAPH
+      node and reads exactly `m`;
+    * the document's paragraphs, in order, are the model's `order` (`oracle2`), all of them live. -/
+theorem C04_history_oracle (kids : List DNode) (hn : AllNodes kids) (ops : List EditOp) :
+    let d' := run (startOf kids) ops
+    let M := mrun (LModel.init kids) ops
+    (∀ j : Nat, match M.paras[j]? with
+      | none => d'.handles.length ≤ j ∧ d'.para j = none
+      | some none => d'.handles[j]? = some none ∧ d'.para j = none
+      | some (some m) => ∃ n, d'.para j = some n ∧ isParaNode n = true ∧ items n = m)
+    ∧ docItems d'.root = M.order.map (fun h => ((M.paras[h]?).join).getD [])
+    ∧ ∀ h ∈ M.order, ∃ m, M.paras[h]? = some (some m) := by
+  obtain ⟨H, _⟩ := C04_history_refines ops (startOf kids) (LModel.init kids) hn (HRel.init kids)
+  exact ⟨fun j => H.oracle1 j, H.oracle2.1, H.oracle2.2⟩
+
+/-- dead handles stay dead and a handle number, once handed out, keeps its entry: the model never
+    revives `paras[j] = None` -/
+theorem mstep_dead (M : LModel) (o : EditOp) (j : Nat) (hj : M.paras[j]? = some none) :
+    (mstep M o).paras[j]? = some none := by
+  cases o with
+  | set h k v => exact LModel.edit_dead M h _ j hj
+  | ins h k v => exact LModel.edit_dead M h _ j hj
+  | rm h k => exact LModel.edit_dead M h _ j hj
+  | ren h k k' => exact LModel.edit_dead M h _ j hj
+  | addp => exact getElem?_append_some _ _ _ _ hj
+  | insp i => exact getElem?_append_some _ _ _ _ hj
+  | rmp i => exact LModel.rmp_dead M i j hj
+
+theorem C04_dead_stays_dead (ops : List EditOp) : ∀ (M : LModel) (j : Nat), M.paras[j]? = some none →
+    (mrun M ops).paras[j]? = some none := by
+  induction ops with
+  | nil => intro M j h; exact h
+  | cons o ops ih => intro M j h; exact ih (mstep M o) j (mstep_dead M o j h)
+
+/-! examples: the start document of `exEditDoc` with the history `exOps` (it goes through a dead
+    handle, a handle returned by `add_paragraph`, and removes paragraphs) -/
+
+theorem exEditDoc_start : exEditDoc = startOf C03.exDoc.tree.children := by
+  have : (paraPositions C03.exDoc.tree.children).map some = [some 2, some 5] := by decide
+  simp [exEditDoc, startOf, this]
+example : AllNodes exEditDoc.kids := by decide
+example : LModel.init exEditDoc.kids =
+    ⟨[some [("Source".toList, "foo\n:x é".toList), ("A".toList, []), ("A".toList, "b: #c".toList)],
+      some [("Package".toList, "bar".toList)]], [0, 1]⟩ := by decide +kernel
+/-- the oracle's model after `exOps`: paragraph 1 was removed (`rmp 1` after `insp 0` — by then it is
+    the old paragraph 0, handle 0), the later `rm 1 Package` empties handle 1's paragraph -/
+example : mrun (LModel.init exEditDoc.kids) exOps =
+    ⟨[none, some [], some [("New".toList, "v1\nv2".toList)], some []], [3, 1, 2]⟩ := by decide +kernel
+
+/-- the invariant is decidable: it holds of the start state, and fails when two handles denote the
+    same paragraph or when a handle points at a comment line -/
+example : HRel exEditDoc.kids exEditDoc.handles (LModel.init exEditDoc.kids) := by decide +kernel
+example : ¬ HRel exEditDoc.kids [some 2, some 2] (LModel.init exEditDoc.kids) := by decide +kernel
+example : ¬ HRel exEditDoc.kids [some 2, some 4] (LModel.init exEditDoc.kids) := by decide +kernel
+
+/-- the theorem applied: what the document lists after `exOps` (two empty paragraphs — the one
+    inserted in front and the emptied one — then the filled new one) -/
+example : docItems (run exEditDoc exOps).root = [[], [], [("New".toList, "v1\nv2".toList)]] := by
+  rw [exEditDoc_start, (C04_history_oracle C03.exDoc.tree.children (by decide) exOps).2.1]
+  decide +kernel
+
+/-- handle 0 is dead after `exOps`, handle 2 (returned by `addp`) reads the filled paragraph -/
+example : (run exEditDoc exOps).para 0 = none
+    ∧ ∃ n, (run exEditDoc exOps).para 2 = some n ∧ items n = [("New".toList, "v1\nv2".toList)] := by
+  rw [exEditDoc_start]
+  have h := (C04_history_oracle C03.exDoc.tree.children (by decide) exOps).1
+  have hM : mrun (LModel.init C03.exDoc.tree.children) exOps =
+      ⟨[none, some [], some [("New".toList, "v1\nv2".toList)], some []], [3, 1, 2]⟩ := by decide +kernel
+  simp only [hM] at h
+  have h0 := h 0
+  have h2 := h 2
+  simp only [List.getElem?_cons_zero, List.getElem?_cons_succ] at h0 h2
+  obtain ⟨n, hn1, _, hn2⟩ := h2
+  exact ⟨h0.2, n, hn1, hn2⟩
 
 end Deb822Verif.Props.C04
